@@ -22,10 +22,12 @@ theorem lincode_wrong_value_rejected (pp : Params F D) (point : Point F) (c : Co
   simp [hne]
 
 /-- the same for the honest proof of `lincode_complete_one`: `p(z) + δ`, `δ ≠ 0`, is answered
-`Ok(false)` -/
+`Ok(false)` (`ha`, `hb`: the point has the right number of coordinates, as in
+`lincode_complete_one` — since fix D23 `check` refuses otherwise, it does not answer `Ok(false)`) -/
 theorem lincode_honest_wrong_value_rejected (pp : Params F D) (point : Point F) (coeffs : List F)
     (E : List F → List F) (k : Nat) (h : Encodes pp coeffs E k) (a b : List F) (o : Oracle F)
     (ht : tensor point (coeffMat pp.dims coeffs).m (coeffMat pp.dims coeffs).n = .ok (a, b))
+    (ha : a.length = (coeffMat pp.dims coeffs).m) (hb : b.length = (coeffMat pp.dims coeffs).n)
     (hi : ∀ i ∈ o.indices, i < k) (δ : F) (hδ : δ ≠ 0) :
     checkOne pp point
       ⟨(coeffMat pp.dims coeffs).n, (coeffMat pp.dims coeffs).m, k,
@@ -33,7 +35,7 @@ theorem lincode_honest_wrong_value_rejected (pp : Params F D) (point : Point F) 
       (dot (vecMat b (coeffMat pp.dims coeffs).rows (coeffMat pp.dims coeffs).m) a + δ)
       (honestProof pp coeffs E k b o) o = .ok false :=
   lincode_wrong_value_rejected pp point _ _ _ _ o
-    (checkOne_honest pp point coeffs E k h a b o ht hi) (by simpa using hδ)
+    (checkOne_honest pp point coeffs E k h a b o ht ha hb hi) (by simpa using hδ)
 
 /-- **Wrong value at any position of a list**: if the whole `check` accepts, changing the value of
 one checked polynomial makes it answer `Ok(false)` (earlier polynomials still pass, the loop returns
@@ -72,8 +74,9 @@ theorem lincode_wrong_value_rejected_all (pp : Params F D) (point : Point F) (cs
 
 /-- **Wrong point, exact condition.**  The honest proof for the row combination `b` (made at a point
 with `tensor = (a, b)`) is checked at a point with `tensor = (a', b')` under the same transcript
-positions: `check` continues with `true` iff `b'` and `b` agree on every opened column of the encoded
-matrix — `(b' − b)·M_ext[:, q] = 0` for all opened `q` — and the claimed value is `⟨v, a'⟩`. -/
+positions: `check` continues with `true` iff `a'`, `b'` have the lengths of the matrix (fix D23: the
+other point has the right number of coordinates), `b'` and `b` agree on every opened column of the
+encoded matrix — `(b' − b)·M_ext[:, q] = 0` for all opened `q` — and the claimed value is `⟨v, a'⟩`. -/
 theorem lincode_wrong_point_iff (pp : Params F D) (point' : Point F) (coeffs : List F)
     (E : List F → List F) (k : Nat) (h : Encodes pp coeffs E k) (a' b b' : List F) (o : Oracle F)
     (value' : F)
@@ -83,18 +86,19 @@ theorem lincode_wrong_point_iff (pp : Params F D) (point' : Point F) (coeffs : L
       ⟨(coeffMat pp.dims coeffs).n, (coeffMat pp.dims coeffs).m, k,
         merkleRoot pp.hs (leavesOf pp (extOf pp coeffs E k))⟩
       value' (honestProof pp coeffs E k b o) o = .ok true ↔
-    (∀ q ∈ o.indices, dot b' (colOf (extOf pp coeffs E k).rows q)
+    a'.length = (coeffMat pp.dims coeffs).m ∧ b'.length = (coeffMat pp.dims coeffs).n ∧
+      (∀ q ∈ o.indices, dot b' (colOf (extOf pp coeffs E k).rows q)
         = dot b (colOf (extOf pp coeffs E k).rows q)) ∧
       dot (vecMat b (coeffMat pp.dims coeffs).rows (coeffMat pp.dims coeffs).m) a' = value' := by
   rw [checkOne_ok_true_iff]
   constructor
   · rintro ⟨a'', hpre, hv⟩
-    obtain ⟨rfl, hbb⟩ :=
+    obtain ⟨rfl, hla, hlb, hbb⟩ :=
       (honest_preRelation_other_iff pp point' coeffs E k h a' b b' a'' o ht hi).1 hpre
-    exact ⟨hbb, hv⟩
-  · rintro ⟨hbb, hv⟩
+    exact ⟨hla, hlb, hbb, hv⟩
+  · rintro ⟨hla, hlb, hbb, hv⟩
     exact ⟨a', (honest_preRelation_other_iff pp point' coeffs E k h a' b b' a' o ht hi).2
-      ⟨rfl, hbb⟩, hv⟩
+      ⟨rfl, hla, hlb, hbb⟩, hv⟩
 
 /-- **Wrong point changes the transcript.**  When the positions the verifier derives differ from
 those the proof was made for at some opened column, `check` refuses (the path's leaf position is
